@@ -29,11 +29,15 @@ type importedString struct {
 }
 
 func (i *importedString) scan() {
+	verifPoint("scan:begin", i)
 	i.u = unistring.Scan(i.s)
+	verifPoint("scan:mid", i)
 	i.scanned = true
+	verifPoint("scan:end", i)
 }
 
 func (i *importedString) ensureScanned() {
+	verifPoint("ensure", i)
 	if !i.scanned {
 		i.scan()
 	}
